@@ -30,6 +30,7 @@ def run(ctx):
                MB + '::clear': {'iter', 'clear', 'read_back', 'remove_back'}, fmc['q']: {'read', 'alias'},
                MB + '::front': {'read_front'}, MB + '::done_front': {'read_front'}, MB + '::MailboxImpl': {'arg', 'write'},
                MB + '::iprobe': {'addr'}}   # iprobe: address printed by a debug log line
+    _eff, _owners = lib.effective_allowed(allowed, lib.class_call_closure(P, A, 'simgrid::kernel::activity::'))
     for qn in qnames:
         for u in lib.field_uses(P, qn):
             if u.kind == 'write' and u.op == 'init':
@@ -37,7 +38,8 @@ def run(ctx):
             cls = u.kind if u.kind != 'call' else lib.CONTAINER_OPS.get(u.method, 'other:' + str(u.method))
             if cls == 'query':
                 continue
-            ok = cls in allowed.get(u.fn['q'], set())
+            own = _owners(u.fn['q'])      # the operations of a private helper belong to the entry points that call it
+            ok = bool(own) and all(cls in _eff.get(o, set()) for o in own)
             ctx.check(ok, 'R1', '%s op %s in %s' % (qn.rsplit('::', 1)[-1], u.method or u.kind, u.fn['q'].replace('simgrid::kernel::activity::', '')), where(u.fn, u.line),
                       'class %s %s' % (cls, '' if ok else 'not allowed here'), key='R1|%s|%s' % (u.fn['q'].rsplit('::', 1)[-1], cls))
     # inside find_matching_comm the selected queue is bound to a reference; the scan must be begin()->end() on it
